@@ -5,10 +5,12 @@
 #include "handle.h"
 #include "pipe.h"
 
+// `redirect->type` is updated if another redirect than the one requested ends up
+// being used (see `REPROC_REDIRECT_PARENT`).
 int redirect_init(pipe_type *parent,
                   handle_type *child,
                   REPROC_STREAM stream,
-                  reproc_redirect redirect,
+                  reproc_redirect *redirect,
                   bool nonblocking,
                   handle_type out);
 
